@@ -193,8 +193,8 @@ def main():
             inconclusive.append(f'{h}: no verdict (did not run)')
             continue
         pr = r.get('props') or {}
-        obligations += pr.get('total_properties', r.get('total_n', 0) or 0)
-        discharged += pr.get('passed', 0)
+        obligations += (pr.get('total_properties') or r.get('total_n') or 0)
+        discharged += (pr.get('passed') or 0)
         st = r.get('stats') or {}
         solver_s += (st.get('runtime_symex_s') or 0) + (st.get('runtime_decision_procedure_s') or 0)
         sample = {'harness': h, 'symbolic': descr, 'verdict': r['status'], 'seconds': r.get('duration_s'),
